@@ -50,6 +50,7 @@ func TestHeartbeatHammer(t *testing.T) {
 			n, list := h.fx.countAfter(h.stopped)
 			running := h.fx.hm.IsHeartbeatRunning()
 			if n > 1 || running {
+				h.fx.leaked = true
 				survivors++
 				if firstSurvivor == "" {
 					firstSurvivor = fmt.Sprintf("round %d: %d refreshes within %v after the final StopHeartbeat returned (%s), IsHeartbeatRunning()=%v", h.round, n, time.Since(h.stopped).Round(time.Millisecond), list, running)
@@ -60,7 +61,7 @@ func TestHeartbeatHammer(t *testing.T) {
 		batch = batch[:0]
 	}
 	for r := 0; r < rounds; r++ {
-		fx := newFixture(schedTimeout, 1, false, false)
+		fx := newFixture(t, schedTimeout, 1, false, false)
 		if r%2 == 1 {
 			fx.hm.StopHeartbeat() // every other round starts from a stopped heartbeat
 		}
